@@ -1,16 +1,19 @@
 #!/bin/bash
 # usage: try_seed.sh <patch.diff> [tier]   — applies a seeded defect to /repo, runs every check, reverts.
 # Prints the properties whose check reports a VIOLATION. Never leaves /repo modified.
+# The analyzer binary is NOT rebuilt here (build it first with ./setup.sh) so that editing rule
+# sources while a matrix run is in flight cannot change the binary under it.
 P="$1"; TIER="${2:-quick}"
 cd /repo || exit 2
-if ! git diff --quiet; then echo "/repo has uncommitted changes; refusing"; exit 2; fi
+if [ -n "$(git status --porcelain)" ]; then echo "/repo has uncommitted changes; refusing"; exit 2; fi
+restore() { git -C /repo reset -q --hard HEAD; git -C /repo clean -fdq; }
 if ! git apply "$P" 2>/dev/null; then
-  if ! git apply -3 "$P" 2>/dev/null; then
-    patch -p1 --fuzz=3 -s < "$P" || { echo "patch does not apply"; git checkout -q -- .; exit 2; }
+  if ! patch -p1 --fuzz=3 -s --no-backup-if-mismatch < "$P" >/dev/null 2>&1; then
+    echo "patch does not apply"; restore; exit 2
   fi
 fi
-git reset -q 2>/dev/null
-cd /verif && ./setup.sh >/dev/null 2>&1
+rm -f $(git ls-files --others --exclude-standard | grep -E '\.(rej|orig)$') 2>/dev/null
+cd /verif
 ./bin/vcheck -all -tier "$TIER" -verif /tmp/tryseed-out 2>&1 | grep -E "^(FAIL|VIOLATION)" | cut -c1-400
-cd /repo && git checkout -q -- . && git clean -fdq
+restore
 git -C /repo status --short | head -3
